@@ -169,6 +169,21 @@ Theorem C11_hyperv_open_terminates :
 Proof. exact open_file_terminates. Qed.
 Print Assumptions C11_hyperv_open_terminates.
 
+(* ... and so does as_dict(): on every file the model never runs out of fuel (the identities of the
+   entries of the active tables are pairwise different, so the parent chains cannot loop) *)
+Theorem C11_hyperv_decoding_terminates :
+  forall f, file_ok f ->
+  open_file f <> Fuel /\ forall p, open_file f = Ok p -> link (p_tables p) <> Fuel.
+Proof. exact decoding_terminates. Qed.
+Print Assumptions C11_hyperv_decoding_terminates.
+
+(* as_dict on ANY list of entries with pairwise different identities, none of them the root *)
+Theorem C17_as_dict_terminates :
+  forall es, NoDup (map l_id es) -> ~ In root_id (map l_id es) -> (forall e, In e es -> l_val e <> Fuel) ->
+  as_dict (S (length es)) es root_id <> Fuel.
+Proof. exact as_dict_terminates. Qed.
+Print Assumptions C17_as_dict_terminates.
+
 (* ---------- non-vacuity ---------- *)
 (* configuration/{version = 2304, name = "A", sub/{flag = true}} with entries spread over tables 1, 2
    and 7, stored in an order in which children precede parents, plus a free entry *)
